@@ -350,22 +350,42 @@ fn leaf_block(cfg: &DocCfg, ctx: &str) -> BoxedStrategy<Blk> {
 }
 
 fn item_blocks(cfg: &DocCfg, inner: BoxedStrategy<Blk>) -> BoxedStrategy<Vec<Blk>> {
-    // strict: an item starts with a paragraph; hostile shapes behind features
-    let first_any = cfg.on("item_first_any");
-    let empty_item = cfg.on("empty_item");
+    // strict: an item starts with a paragraph. Other first blocks are behind features:
+    //   item_first_block: code / quote / table / rule first (known finding: panics the section builder)
+    //   item_first_list, item_first_heading, empty_item: restructurings the properties allow (C07 quantifier)
     let para = inlines(cfg, true, 5).prop_map(Blk::Para).boxed();
-    let first: BoxedStrategy<Blk> = if first_any {
-        prop_oneof![3 => para.clone(), 2 => inner.clone()].boxed()
-    } else {
-        para
-    };
+    let mut firsts: Vec<(u32, BoxedStrategy<Blk>)> = vec![(12, para.clone())];
+    if cfg.on("item_first_block") {
+        firsts.push((
+            2,
+            prop_oneof![
+                vec(code_line(false), 1..3).prop_map(|lines| Blk::Code { fenced: true, tilde: false, flen: 3, lang: String::new(), lines }),
+                words(1, 2).prop_map(|w| Blk::Quote(vec![Blk::Para(w)])),
+                words(1, 1).prop_map(|w| Blk::Table { aligns: vec![0], head: vec![w], rows: vec![], outer_pipes: true }),
+                Just(Blk::Rule(1)),
+            ]
+            .boxed(),
+        ));
+    }
+    if cfg.on("item_first_list") {
+        firsts.push((
+            1,
+            (any::<bool>(), vec(words(1, 2).prop_map(|w| vec![Blk::Para(w)]), 1..3))
+                .prop_map(|(ordered, items)| Blk::List { ordered, start: 1, paren: false, bullet: 1, loose: false, pad: 1, same_num: false, items })
+                .boxed(),
+        ));
+    }
+    if cfg.on("item_first_heading") {
+        firsts.push((1, (1u8..4, words(1, 2)).prop_map(|(level, inl)| Blk::Head { level, setext: false, closing: 0, inl }).boxed()));
+    }
+    let first = proptest::strategy::Union::new_weighted(firsts).boxed();
     let rest = vec(inner, 0..3);
     let s = (first, rest).prop_map(|(f, mut r)| {
         let mut v = vec![f];
         v.append(&mut r);
         v
     });
-    if empty_item {
+    if cfg.on("empty_item") {
         prop_oneof![12 => s, 1 => Just(vec![])].boxed()
     } else {
         s.boxed()
@@ -443,7 +463,21 @@ fn separate_lists(bs: &mut Vec<Blk>) {
     }
 }
 
+/// `---` below a block quote opens a YAML metadata block in pulldown (and is hoisted to the top of
+/// the note by iwe); outside the known-finding domain such rules are spelled `***`.
+fn no_dash_rule_in_quote(bs: &mut Vec<Blk>, in_quote: bool) {
+    for b in bs.iter_mut() {
+        match b {
+            Blk::Quote(inner) => no_dash_rule_in_quote(inner, true),
+            Blk::List { items, .. } => items.iter_mut().for_each(|it| no_dash_rule_in_quote(it, in_quote)),
+            Blk::Rule(k) if in_quote && (*k % 4 == 0) => *k = 1,
+            _ => {}
+        }
+    }
+}
+
 pub fn doc(cfg: &DocCfg) -> BoxedStrategy<Doc> {
+    let dash_rule_in_quote = cfg.on("dash_rule_in_quote");
     let adjacent_lists = cfg.on("adjacent_lists");
     let front_on = cfg.on("front_matter");
     let crlf_on = cfg.on("crlf");
@@ -486,6 +520,9 @@ pub fn doc(cfg: &DocCfg) -> BoxedStrategy<Doc> {
             }
             if !adjacent_lists {
                 separate_lists(&mut blocks);
+            }
+            if !dash_rule_in_quote {
+                no_dash_rule_in_quote(&mut blocks, false);
             }
             let mut d = Doc {
                 front,
